@@ -99,8 +99,9 @@ def main():
         report["checks_against_patched_copy"] = checks
         out = VERIF / "seeded" / a.id
         out.mkdir(parents=True, exist_ok=True)
-        shutil.copy(patch, out / "patch.diff")
-        if demo is not None:
+        if patch.resolve() != (out / "patch.diff").resolve():
+            shutil.copy(patch, out / "patch.diff")
+        if demo is not None and demo.resolve() != (out / demo.name).resolve():
             shutil.copy(demo, out / demo.name)
         meta = {}
         if (src_dir / "meta.json").exists():
@@ -108,6 +109,10 @@ def main():
                 meta = json.loads((src_dir / "meta.json").read_text())
             except ValueError:
                 meta = {"raw": (src_dir / "meta.json").read_text()[:3000]}
+        prev = meta.get("confirmation", {})
+        for k in ("baseline_stable", "baseline_missing_with_patch"):
+            if k not in report and prev.get(k) is not None:
+                report[k] = prev[k]
         meta["confirmation"] = report
         (out / "meta.json").write_text(json.dumps(meta, indent=1, ensure_ascii=False) + "\n")
         print(json.dumps(report, indent=1)[:3000])
